@@ -172,6 +172,7 @@ type c03Harness struct {
 type c03Held struct {
 	K       string
 	Key     uint64
+	Ver     int
 	release chan struct{}
 }
 
@@ -242,13 +243,13 @@ func (h *c03Harness) wanted(indices []phase0.ValidatorIndex) map[uint64]bool {
 }
 
 // hold blocks the calling goroutine (after the reply has been computed) while the kind is held.
-func (h *c03Harness) hold(k string, key uint64) {
+func (h *c03Harness) hold(k string, key uint64, ver int) {
 	h.mu.Lock()
 	if !h.holdKinds[k] {
 		h.mu.Unlock()
 		return
 	}
-	x := &c03Held{K: k, Key: key, release: make(chan struct{})}
+	x := &c03Held{K: k, Key: key, Ver: ver, release: make(chan struct{})}
 	h.held = append(h.held, x)
 	h.mu.Unlock()
 	<-x.release
@@ -275,7 +276,7 @@ func (h *c03Harness) AttesterDuties(_ context.Context, opts *api.AttesterDutiesO
 		}
 	}
 	h.mu.Unlock()
-	h.hold("att", e)
+	h.hold("att", e, ver)
 	return &api.Response[[]*apiv1.AttesterDuty]{Data: res, Metadata: map[string]any{}}, nil
 }
 
@@ -293,7 +294,7 @@ func (h *c03Harness) ProposerDuties(_ context.Context, opts *api.ProposerDutiesO
 		}
 	}
 	h.mu.Unlock()
-	h.hold("prop", e)
+	h.hold("prop", e, ver)
 	return &api.Response[[]*apiv1.ProposerDuty]{Data: res, Metadata: map[string]any{}}, nil
 }
 
@@ -321,7 +322,7 @@ func (h *c03Harness) SyncCommitteeDuties(_ context.Context, opts *api.SyncCommit
 		}
 	}
 	h.mu.Unlock()
-	h.hold("sync", p)
+	h.hold("sync", p, ver)
 	return &api.Response[[]*apiv1.SyncCommitteeDuty]{Data: res, Metadata: map[string]any{}}, nil
 }
 
@@ -629,18 +630,18 @@ func (h *c03Harness) Held() []c03Fetch {
 	defer h.mu.Unlock()
 	res := make([]c03Fetch, 0, len(h.held))
 	for _, x := range h.held {
-		res = append(res, c03Fetch{K: x.K, Key: x.Key})
+		res = append(res, c03Fetch{K: x.K, Key: x.Key, Ver: x.Ver})
 	}
 	return res
 }
 
-// Release delivers the oldest kept-back reply for (k, key); false if there is none.
-func (h *c03Harness) Release(k string, key uint64) (bool, error) {
+// Release delivers the oldest kept-back reply for (k, key) made at version ver; false if there is none.
+func (h *c03Harness) Release(k string, key uint64, ver int) (bool, error) {
 	h.begin()
 	h.mu.Lock()
 	var x *c03Held
 	for i, c := range h.held {
-		if c.K == k && c.Key == key {
+		if c.K == k && c.Key == key && c.Ver == ver {
 			x = c
 			h.held = append(h.held[:i], h.held[i+1:]...)
 			break
